@@ -266,7 +266,11 @@ def run_cfg(tier, seed, jobs):
     gen = itertools.chain(strings(alpha, n), (''.join(t) for k in range(1, (6 if tier == 'quick' else 7)) for t in itertools.product(words, repeat=k)))
     # the same predicates with every kind of white space between their tokens
     tmpl = [['all', '(', 'a', ',', 'n', ')'], ['any', '(', 'a', ',', 'y', ')'], ['not', '(', 'a', ')'], ['a', '=', '"a"'], ['all', '(', 'a', '=', '"n"', ',', 'not', '(', 'n', ')', ')'],
-            ['any', '(', ')'], ['all', '(', ')'], ['a'], ['not', '(', 'any', '(', 'n', ',', 'y', '=', '"y"', ')', ')']]
+            ['any', '(', ')'], ['all', '(', ')'], ['a'], ['not', '(', 'any', '(', 'n', ',', 'y', '=', '"y"', ')', ')'],
+            # the arity of not() — exactly one predicate — at the top and nested (longer than the exhaustive word bound of the quick tier)
+            ['not', '(', ')'], ['not', '(', 'a', ',', 'n', ')'], ['not', '(', 'n', ',', 'a', ')'], ['not', '(', 'a', ',', 'n', ',', 'y', ')'], ['all', '(', 'not', '(', 'n', ',', 'a', ')', ')'],
+            ['not', '(', 'not', '(', 'a', ')', ',', 'n', ')'], ['any', '(', 'a', ',', 'not', '(', 'a', ',', 'a', ')', ')'], ['not', '(', 'a', '=', '"a"', ',', 'n', ')'],
+            ['all', '(', 'a', ',', 'n', ',', 'y', ')'], ['any', '(', 'n', ',', 'y', ',', 'a', ')'], ['all', '(', 'any', '(', 'n', ',', 'a', ')', ',', 'not', '(', 'n', ')', ')']]
     wss = ['', ' ', '\t', '\n', '\r\n', ' \t ', '\f', '\v', '  ']
     spaced = []
     for t in tmpl:
@@ -278,7 +282,7 @@ def run_cfg(tier, seed, jobs):
     # identifiers glued by removing the separator are different predicates; the reference lexer decides what each text means
     gen = itertools.chain(gen, iter(sorted(set(spaced))))
     ev, nt, fails = pmap(_cfg_chunk, chunked(gen, 20000), jobs)
-    return {'name': 'C20/bounded/eval_cfg==reference', 'function': 'eval_cfg', 'bound': f'all bodies of <= {n} characters over {alpha!r} and all bodies of <= {5 if tier == "quick" else 6} words over {words!r}, plus 9 predicates with blank / tab / newline / CRLF / form feed / vertical tab at every token boundary, x 8 configurations (several with the same names and different values, evaluated one after the other in one process)',
+    return {'name': 'C20/bounded/eval_cfg==reference', 'function': 'eval_cfg', 'bound': f'all bodies of <= {n} characters over {alpha!r} and all bodies of <= {5 if tier == "quick" else 6} words over {words!r}, plus 20 predicates (the arity of not() among them) with blank / tab / newline / CRLF / form feed / vertical tab at every token boundary, x 8 configurations (several with the same names and different values, evaluated one after the other in one process)',
             'evaluations': ev, 'distinct_nontrivial': nt, 'rule': 'non-trivial: well-formed per the reference grammar', 'exhaustive': True, 'failures': fails}
 
 
